@@ -3,7 +3,7 @@
    of Spec/Cbv.v (evaluation contexts + redexes). *)
 From Coq Require Import List ZArith Bool.
 Import ListNotations.
-Require Import Gram.Model.Term Gram.Model.DeBruijn Gram.Model.Eval Gram.Spec.Cbv Gram.Proofs.CbvProofs.
+Require Import Gram.Model.Term Gram.Model.DeBruijn Gram.Model.Eval Gram.Spec.Cbv Gram.Proofs.CbvProofs Gram.Spec.EvalEnv Gram.Proofs.EvalEnvProofs.
 
 Theorem C02_step_iff_cbv : forall t t', step t = Some t' <-> cbv t t'.
 Proof. exact step_iff_cbv. Qed.
@@ -47,3 +47,80 @@ Theorem C02_even7 : evaluate 400 evenodd = Some TFalse.
 Proof. exact even7. Qed.
 Check C02_even7 : evaluate 400 evenodd = Some TFalse.
 Print Assumptions C02_even7.
+
+(* The independent reference interpreter (Spec/EvalEnv.v: environments, closures, an append-only store of
+   cells - written without substitution, shifting or opening) and the evaluator model agree BY PROOF on every
+   closed hole-free program whose groups are single value definitions (recursive functions included; `okt`):
+   they terminate together, with the same observable value or with a stuck term of the same reason, and
+   diverge together (Proofs/EvalEnvProofs.v: a simulation through an unloading relation with ghost reference
+   terms for the cyclic store, and the converse by decomposition along evaluation contexts). General groups
+   (several definitions, computed definitions) are compared by running both (stream `evalenv`). *)
+Theorem C02_interpreters_agree : forall t, okt 0 t ->
+  ((exists f, run_env f t <> RFuel) <-> (exists f t', evaluate f t = Some t')) /\
+  (forall f1 f2 t', evaluate f1 t = Some t' ->
+     match run_env f2 t with
+     | ROk v => (exists G, vrel G v t') /\ is_value t' = true /\ obs_of_term t' = Some (obs_of_value v)
+     | RStuck k => is_value t' = false /\ stuck_reason t' = Some k
+     | RFuel => True
+     end).
+Proof. exact interpreters_agree. Qed.
+Check C02_interpreters_agree : forall t, okt 0 t ->
+  ((exists f, run_env f t <> RFuel) <-> (exists f t', evaluate f t = Some t')) /\
+  (forall f1 f2 t', evaluate f1 t = Some t' ->
+     match run_env f2 t with
+     | ROk v => (exists G, vrel G v t') /\ is_value t' = true /\ obs_of_term t' = Some (obs_of_value v)
+     | RStuck k => is_value t' = false /\ stuck_reason t' = Some k
+     | RFuel => True
+     end).
+Print Assumptions C02_interpreters_agree.
+
+Theorem C02_interpreters_agree_obs : forall t o, okt 0 t ->
+  ((exists f v, run_env f t = ROk v /\ obs_of_value v = o) <->
+   (exists f t', evaluate f t = Some t' /\ is_value t' = true /\ obs_of_term t' = Some o)).
+Proof. exact interpreters_agree_obs. Qed.
+Check C02_interpreters_agree_obs : forall t o, okt 0 t ->
+  ((exists f v, run_env f t = ROk v /\ obs_of_value v = o) <->
+   (exists f t', evaluate f t = Some t' /\ is_value t' = true /\ obs_of_term t' = Some o)).
+Print Assumptions C02_interpreters_agree_obs.
+
+Theorem C02_interpreters_agree_stuck : forall t k, okt 0 t ->
+  ((exists f, run_env f t = RStuck k) <->
+   (exists f t', evaluate f t = Some t' /\ is_value t' = false /\ stuck_reason t' = Some k)).
+Proof. exact interpreters_agree_stuck. Qed.
+Check C02_interpreters_agree_stuck : forall t k, okt 0 t ->
+  ((exists f, run_env f t = RStuck k) <->
+   (exists f t', evaluate f t = Some t' /\ is_value t' = false /\ stuck_reason t' = Some k)).
+Print Assumptions C02_interpreters_agree_stuck.
+
+Theorem C02_interpreters_diverge_together : forall t, okt 0 t ->
+  ((forall f, run_env f t = RFuel) <-> (forall f, evaluate f t = None)).
+Proof. exact interpreters_diverge_together. Qed.
+Check C02_interpreters_diverge_together : forall t, okt 0 t ->
+  ((forall f, run_env f t = RFuel) <-> (forall f, evaluate f t = None)).
+Print Assumptions C02_interpreters_diverge_together.
+
+(* arithmetic, comparisons, negation and conditionals on literals: both interpreters have terminated within
+   `gsize t` steps with the same literal / boolean, or stuck for the same reason *)
+Theorem C02_ground_agreement : forall t, ground t = true -> forall f, gsize t < f ->
+    (exists v, ground_value v = true /\ run_env f t = ROk v /\ evaluate f t = Some (gterm v)) \/
+    (exists k t', run_env f t = RStuck k /\ evaluate f t = Some t' /\ is_value t' = false /\ stuck_reason t' = Some k).
+Proof. exact ground_agreement. Qed.
+Check C02_ground_agreement : forall t, ground t = true -> forall f, gsize t < f ->
+    (exists v, ground_value v = true /\ run_env f t = ROk v /\ evaluate f t = Some (gterm v)) \/
+    (exists k t', run_env f t = RStuck k /\ evaluate f t = Some t' /\ is_value t' = false /\ stuck_reason t' = Some k).
+Print Assumptions C02_ground_agreement.
+
+(* more fuel never changes an answer of the reference interpreter (all terms, groups included) *)
+Theorem C02_eval_env_mono : forall f f' s env t s' r,
+  f <= f' -> eval_env f s env t = (s', r) -> r <> RFuel -> eval_env f' s env t = (s', r).
+Proof. exact eval_env_mono. Qed.
+Check C02_eval_env_mono : forall f f' s env t s' r,
+  f <= f' -> eval_env f s env t = (s', r) -> r <> RFuel -> eval_env f' s env t = (s', r).
+Print Assumptions C02_eval_env_mono.
+
+(* non-vacuity: the recursive factorial is in the fragment, the reference interpreter computes 120, and the
+   theorem (not computation) gives that the evaluator model reaches the literal 120 *)
+Theorem C02_factorial_agree : okt 0 fact_prog /\ run_env 40 fact_prog = ROk (VLit 120) /\ exists f, evaluate f fact_prog = Some (TLit 120).
+Proof. exact (conj fact_prog_okt (conj fact_prog_run_env fact_prog_agree)). Qed.
+Check C02_factorial_agree : okt 0 fact_prog /\ run_env 40 fact_prog = ROk (VLit 120) /\ exists f, evaluate f fact_prog = Some (TLit 120).
+Print Assumptions C02_factorial_agree.
